@@ -216,6 +216,9 @@ def generated_mem_blocks(tier):
         out.append("DUP2 MLOAD SWAP1 DUP3 PUSH 1f ADD %s SWAP1 MLOAD" % st)
     for a, b in (("1", "1"), ("1", "2")):
         out.append("PUSH %s SLOAD SWAP1 PUSH %s SSTORE PUSH %s SLOAD" % (a, b, a))
+    # MSIZE observes every earlier memory access (finding F35)
+    out += ["PUSH 80 MLOAD MSIZE", "MSIZE PUSH 80 MLOAD MSIZE", "PUSH 80 MLOAD POP MSIZE", "MSIZE DUP2 MLOAD", "PUSH 0 PUSH 0 MSTORE MSIZE",
+            "MSIZE PUSH 0 PUSH 0 MSTORE", "MSIZE SWAP1 PUSH 200 MSTORE8 MSIZE"]
     out += ["PUSH 10 MSTORE PUSH 10 MLOAD PUSH 14 MSTORE", "DUP1 PUSH 10 MSTORE PUSH 14 MSTORE", "DUP1 PUSH 1f MSTORE8 PUSH 0 MSTORE",
             "DUP1 PUSH 0 MSTORE PUSH 1f MSTORE8",                     # same value stored at overlapping, different positions (F24)
             "PUSH 1 SSTORE PUSH 2 SSTORE SSTORE", "PUSH 1 SSTORE SWAP1 SSTORE PUSH 1 SSTORE", "SWAP1 PUSH 2 SSTORE PUSH 1 SSTORE SSTORE",
